@@ -45,6 +45,15 @@ def addEntry (b : Builder) (s : Str) : Builder × Nat :=
 def marshalSymbols (b : Builder) : List Nat × Str :=
   (b.entries.map fun e => e.start + e.str.length, b.entries.flatMap (·.str))
 
+/-- `copy(data[start:start+len(k)], k)` -/
+def writeAt (buf : Str) (start : Nat) (s : Str) : Str := buf.take start ++ s ++ buf.drop (start + s.length)
+
+/-- `marshalSymbols` as the Go loop runs it: `order` is the order in which `range builder.Table`
+    happens to visit the entries; both arrays start zeroed -/
+def marshalSymbolsIn (order : List Entry) (n size : Nat) : List Nat × Str :=
+  (order.foldl (fun o e => o.set e.index (e.start + e.str.length)) (List.replicate n 0),
+   order.foldl (fun d e => writeAt d e.start e.str) (List.replicate size 0))
+
 /-- the symbols loop of `NewRequest`: `start := 0; for each end { data[start:end]; start = end }` -/
 def decodeSymbolsFrom (data : Str) : Nat → List Nat → List Str
   | _, [] => []
